@@ -36,7 +36,7 @@ LEVEL_TEXT = ('Every operator invocation that occurs while running the generated
               'a violation is a concrete (program, input, invocation).')
 LEVEL_NOTE = 'Trusted: frame introspection (f_locals/f_globals evaluation of qualified names) and the monitor in vf/backends.py.'
 
-GEN = {'directives': 35, 'unbound_reads': False, 'excl': ('no_all_branch_rebind_in_nested_block', 'no_handler_only_binding', 'no_try_else', 'no_for_target_rebind', 'no_lambda_capture_across_rebind', 'no_impure_chain_middle',
+GEN = {'directives': 35, 'unbound_reads': False, 'excl': ('no_all_branch_rebind_in_nested_block', 'no_handler_only_binding', 'no_for_target_rebind', 'no_lambda_capture_across_rebind', 'no_impure_chain_middle',
                                    )}
 _KEEP = []
 
